@@ -104,10 +104,16 @@ def level_records(run):
     # the same subsets in another order (the first subset has no repetition at all), and every base path under every
     # subset selector: which subsets contribute - and which is the FIRST to contribute - varies with both
     msgs.append(('generated-empty-first', Decoder().process(Encoder().process(pyb.flat_json(4, ids, 3, False, [subs[1], subs[2], subs[0]])).serialized_bytes)))
+    # descendant queries over an element that sits directly in a replication block AND in a replication nested inside
+    # it: the level-4 result then mixes plain values and deeper lists inside one list
+    ids2 = [103002, 1001, 101002, 1001, 12001]
+    subs2 = [[1, 2, 3, 4, 5, 6, 250.1], [7, 8, 9, 10, 11, 12, 251.2]]
+    msgs.append(('generated-mixed-depth', Decoder().process(Encoder().process(pyb.flat_json(4, ids2, 2, False, subs2)).serialized_bytes)))
     base = ['/001001', '/104000/012001', '/104000/102002/002001', '012001', '/104000.031001', '/104000/102002/011003[0]', '/001015']
     sels = ['', '@[0]', '@[1]', '@[2]', '@[1:]', '@[:2]', '@[::-1]', '@[-1]', '@[::2]']
     crossed = [sel + (' > ' + b if sel and not b.startswith('/') else b) for b in base for sel in sels]
     queries = {'generated': crossed, 'generated-empty-first': crossed,
+               'generated-mixed-depth': ['> 001001', '001001', '/103002 > 001001', '/103002/001001', '/103002/101002/001001', '@[1] > 001001', '012001'],
                'generated-cmp': ['/001001', '/102002/012001', '002001', '@[-1]/102002/002001'],
                'contrived.bufr': ['001002', '/301001/001001'], 'jaso_214.bufr': ['/312041/005001', '001007', '@[0:2]/312041/021128'],
                'mpco_217.bufr': ['/005001', '011001', '/116000/010004']}
